@@ -176,6 +176,31 @@ def main(argv):
     seed = int(os.environ.get("VERIF_SEED", "0") or 0)
     prop = a.prop
     t0 = time.time()
+    # hard wall-clock limit: a solver call or a native call that never returns must not hang the check; it ends as a checker
+    # error (exit 3), never as a verdict
+    import threading
+
+    def _give_up():
+        import multiprocessing
+        import signal
+        sys.stderr.write("CHECKER-ERROR: wall-clock limit reached, giving up\n")
+        print("CHECKER-ERROR: wall-clock limit reached (%s tier); no verdict" % a.tier)
+        sys.stdout.flush()
+        for ch in multiprocessing.active_children():
+            try:
+                ch.kill()
+            except Exception:
+                pass
+        try:
+            # everything this process started (pool workers, the run-time evaluator): same process group unless re-grouped
+            for line in os.popen("ps -o pid= --ppid %d" % os.getpid()).read().split():
+                os.kill(int(line), signal.SIGKILL)
+        except Exception:
+            pass
+        os._exit(3)
+    _wd = threading.Timer(2400.0 if a.tier == "quick" else 7200.0, _give_up)
+    _wd.daemon = True
+    _wd.start()
     sys.path.insert(0, ROOT)
     from . import speclang
     from .propinfo import PROPS
